@@ -61,6 +61,7 @@ type world struct {
 	hd     *stores.Handle
 	log    []entry
 	saved  map[string]eventbus.Offset
+	maybe  map[string]eventbus.Offset // value of a save that returned an error (accepted as well)
 	second *stores.Medium
 	viol   func(clause, facts, detail string)
 }
@@ -131,6 +132,22 @@ func build(hs hist, viol func(clause, facts, detail string)) (*world, bool) {
 				return w, false
 			}
 			w.saved[o.ID] = off
+		case "save-cancelled":
+			// SaveOffset with an already-cancelled context: it may fail (then the old value
+			// stays - or, weak reading, the new one is there) or succeed (then the new
+			// value must be there); a later retry must work either way.
+			cctx, cancel := context.WithCancel(bg)
+			cancel()
+			off := w.offAt(o.Pos)
+			if err := w.hd.Sub.SaveOffset(cctx, o.ID, off); err == nil {
+				w.saved[o.ID] = off
+				delete(w.maybe, o.ID)
+			} else {
+				if w.maybe == nil {
+					w.maybe = map[string]eventbus.Offset{}
+				}
+				w.maybe[o.ID] = off
+			}
 		case "reopen":
 			w.hd.Close()
 			hd, err := w.med.Open()
@@ -325,9 +342,44 @@ func (w *world) battery() (queries int) {
 				continue
 			}
 		}
+		if m, ok := w.maybe[id]; ok && err == nil && got == m {
+			continue
+		}
 		if err != nil || got != want {
 			w.viol("saved-offset-wrong", "", fmt.Sprintf("LoadOffset(%s) = %q (err %v), want %q", id, got, err, want))
 		}
+	}
+	return queries
+}
+
+// light is the reduced battery for transitions into already examined states: saved
+// offsets, one full read, one full stream.
+func (w *world) light() (queries int) {
+	for _, id := range []string{"a", "b"} {
+		queries++
+		want := w.saved[id]
+		got, err := w.hd.Sub.LoadOffset(bg, id)
+		if m, ok := w.maybe[id]; ok && err == nil && got == m {
+			continue
+		}
+		if err == nil && got != want {
+			a, _, e1 := w.hd.Store.Read(bg, got, 0)
+			b, _, e2 := w.hd.Store.Read(bg, want, 0)
+			if e1 == nil && e2 == nil && len(a) == len(b) && (len(a) == 0 || a[0].Offset == b[0].Offset) {
+				continue
+			}
+		}
+		if err != nil || got != want {
+			w.viol("saved-offset-wrong", "", fmt.Sprintf("LoadOffset(%s) = %q (err %v), want %q", id, got, err, want))
+		}
+	}
+	queries++
+	evs, _, err := w.hd.Store.Read(bg, eventbus.OffsetOldest, 0)
+	if strings.HasPrefix(w.kind, "durable") {
+		return queries // one chunk per read: the full battery reports that
+	}
+	if err != nil || len(evs) != len(w.log) {
+		w.viol("read-wrong-count", "limit=all: returned "+fewerMore(len(evs), len(w.log))+" than the events after the offset", fmt.Sprintf("Read(oldest,0) returned %d events (err %v), the log has %d", len(evs), err, len(w.log)))
 	}
 	return queries
 }
@@ -347,50 +399,50 @@ func searchStructure(c *h.Check, kind string, preload, depth int, idx *int) {
 	seen := map[string]bool{}
 	frontier := []node{{}}
 	seen[fmt.Sprintf("%d|", preload)] = true
-	first := true
-	for d := 0; d <= depth && len(frontier) > 0; d++ {
+	// exec runs one history on the real store; full=true applies the complete query
+	// battery (new states), full=false the light one (transitions into states already
+	// examined: every transition is executed, not only one representative per state).
+	exec := func(ops []sop, full bool) {
+		*idx++
+		if !c.Mine(*idx) || c.TimeUp() {
+			return
+		}
+		hs := hist{Kind: kind, Preload: preload, Ops: ops}
+		viol := func(clause, facts, detail string) {
+			sig := fmt.Sprintf("store=%s %s", kind, clause)
+			if facts != "" {
+				sig += " (" + facts + ")"
+			}
+			c.Violate(clause, sig, fmt.Sprintf("history: preload=%d ops=%v\n%s", preload, ops, detail), hs)
+		}
+		w, ok := build(hs, viol)
+		q := 0
+		if ok && full {
+			q = w.battery()
+		} else if ok {
+			q = w.light()
+		}
+		w.close()
+		if full {
+			c.Count("states", 1)
+			c.Count("nontrivial", 1)
+		}
+		c.Count("transitions", int64(len(ops)+q))
+		c.Count("traces_validated_against_impl", int64(len(ops)+q))
+		c.Count("evaluations", int64(q))
+		if *idx%397 == 0 {
+			c.Sample(map[string]any{"store": kind, "preload": preload, "ops": fmt.Sprint(ops), "queries": q, "full_battery": full})
+		}
+	}
+	exec(nil, true)
+	for d := 0; d < depth && len(frontier) > 0; d++ {
 		var next []node
 		for _, n := range frontier {
-			// successors of n (model-level: the model is the history itself)
 			L := preload
 			for _, o := range n.ops {
 				if o.K == "append" {
 					L++
 				}
-			}
-			*idx++
-			if c.Mine(*idx) {
-				if c.TimeUp() {
-					return
-				}
-				hs := hist{Kind: kind, Preload: preload, Ops: n.ops}
-				viol := func(clause, facts, detail string) {
-					sig := fmt.Sprintf("store=%s %s", kind, clause)
-					if facts != "" {
-						sig += " (" + facts + ")"
-					}
-					c.Violate(clause, sig, fmt.Sprintf("history: preload=%d ops=%v\n%s", preload, n.ops, detail), hs)
-				}
-				w, ok := build(hs, viol)
-				q := 0
-				if ok {
-					q = w.battery()
-				}
-				w.close()
-				c.Count("states", 1)
-				c.Count("nontrivial", 1)
-				c.Count("transitions", int64(len(n.ops)+q))
-				c.Count("traces_validated_against_impl", int64(len(n.ops)+q))
-				c.Count("evaluations", int64(q))
-				if first {
-					first = false
-				}
-				if *idx%97 == 0 {
-					c.Sample(map[string]any{"store": kind, "preload": preload, "ops": fmt.Sprint(n.ops), "queries": q})
-				}
-			}
-			if d == depth {
-				continue
 			}
 			var succ []sop
 			succ = append(succ, sop{K: "append"})
@@ -400,13 +452,17 @@ func searchStructure(c *h.Check, kind string, preload, depth int, idx *int) {
 						continue // on preloaded logs only positions around the end
 					}
 					succ = append(succ, sop{K: "save", ID: id, Pos: p})
+					if id == "a" && (p == L || p == 0) {
+						succ = append(succ, sop{K: "save-cancelled", ID: id, Pos: p})
+					}
 				}
 			}
 			succ = append(succ, sop{K: "reopen"}, sop{K: "second"})
 			for _, o := range succ {
 				ops := append(append([]sop{}, n.ops...), o)
-				// model state after ops
-				saved := map[string]int{}
+				// model-level state after ops (a save whose context was cancelled leaves the
+				// model state open until the next save of that id: marked with '?')
+				saved := map[string]string{}
 				LL := preload
 				tail := ""
 				for _, x := range ops {
@@ -414,17 +470,21 @@ func searchStructure(c *h.Check, kind string, preload, depth int, idx *int) {
 					case "append":
 						LL++
 					case "save":
-						saved[x.ID] = x.Pos + 1
+						saved[x.ID] = fmt.Sprint(x.Pos + 1)
+					case "save-cancelled":
+						saved[x.ID] = saved[x.ID] + "?" + fmt.Sprint(x.Pos+1)
 					}
 				}
 				if o.K == "reopen" || o.K == "second" {
 					tail = "/" + o.K // the state right after a reopen / next to a second store is examined once
 				}
-				k := fmt.Sprintf("%d|a%d,b%d%s", LL, saved["a"], saved["b"], tail)
+				k := fmt.Sprintf("%d|a%s,b%s%s", LL, saved["a"], saved["b"], tail)
 				if seen[k] {
+					exec(ops, false)
 					continue
 				}
 				seen[k] = true
+				exec(ops, true)
 				next = append(next, node{ops})
 			}
 		}
